@@ -42,16 +42,7 @@ def search(rng, tier, disagreeing):
 
 
 def classify(body, impl, verdict):
-    toks = body.split(" ; ", 1)[1].split(" ")
-    cfgs = [t[2:].split(",") for t in toks if t.startswith("B:")]
-    c = cfgs[0]
-    if c[3] == "~" and c[8][0] in "gb":
-        return "no-suffix-nothing-is-compressed"
-    ts_naming = c[7].split(".")[0] in ("ts", "tsd", "cu")
-    if ts_naming and c[3] != "~" and bytes.fromhex(c[3]) > b"restart-" and g.same_second_rotations(toks):
-        return "suffix-sorts-after-restart-siblings"
-    naming = c[7].split(".")
-    direct_ts = naming[0] == "tsd" or (naming[0] == "cu" and naming[1] == "~")
+    """no recorded finding is left for this property: every failure is reported"""
     return None
 
 
